@@ -137,6 +137,8 @@ class Real:
         self.workers = []
         self.stop_called = False
         self.busy = False
+        self.runs = 1
+        self.run_ends = []
         real = self
 
         self.url_src = None
@@ -240,7 +242,18 @@ class Real:
         t = handle_task(h)
         if t is not None:
             self.stepped.add(id(t))
-        self.loop._run_once()
+        import signal
+
+        def on_alarm(signum, frame):     # wall-clock watchdog: a step that never yields is a frozen event loop
+            self.busy = True
+            raise BusyLoop()
+        old = signal.signal(signal.SIGALRM, on_alarm)
+        signal.setitimer(signal.ITIMER_REAL, 20.0)
+        try:
+            self.loop._run_once()
+        finally:
+            signal.setitimer(signal.ITIMER_REAL, 0)
+            signal.signal(signal.SIGALRM, old)
         if self.busy:
             raise BusyLoop()
 
@@ -309,6 +322,16 @@ class Real:
                 self.src_fut.set_result(None)
                 h = self._handles().get('P')
             self._run_handle(h)
+        elif a[0] == 'R':
+            # process() again on the SAME Pipeline / ItemQueue object, after `concurrency = k`
+            if self.main_status() != 'r':
+                return False
+            self.snapshot_end()
+            self.all_log.append(('restart',))
+            self.runs += 1
+            self.pipeline.concurrency = int(a[1:])
+            self.main = self.loop.create_task(compat._ensure(self.pipeline.process()))
+            self._run_handle(self._handles().get('M'))      # the model's restart includes the first step of process()
         elif a[0] in 'TX':
             i = int(a[1:])
             fut = self.parked.pop(i, None)
@@ -321,6 +344,18 @@ class Real:
             raise Infra('bad action %r' % a)
         self._settle()
         return True
+
+    def snapshot_end(self):
+        """What a finished run leaves behind on the object (recorded once per run)."""
+        if len(self.run_ends) >= self.runs:
+            return
+        p = self.pipeline
+        cond = p._item_queue._worker_ready_condition
+        alive = [t for t in self.tasks if not t.done()]
+        self.run_ends.append({'run': self.runs, 'status': self.main_status(), 'lock_held': bool(cond.locked()),
+                              'alive_tasks': len(alive), 'worker_tasks': len(p._worker_tasks),
+                              'producer_done': p._producer_task is None or p._producer_task.done(),
+                              'in_flight': sorted(self.parked), 'state': p._state.value})
 
     def holder_last(self, a):
         """Will completing action T<i> finish item i (its last task)?"""
@@ -384,8 +419,16 @@ def run_real(n, k, conc, src_fail, policy_or_actions, rng=None, inj=None, cont=N
     try:
         for step_no in range(MAX_ACTIONS):
             if real.main.done():
-                break
-            if fixed is not None and step_no >= len(fixed) and picker is not None:
+                real.snapshot_end()
+                nxt = None
+                if fixed is not None and step_no < len(fixed):
+                    nxt = fixed[step_no]
+                elif fixed is not None and picker is not None:
+                    nxt = picker(real, actions)
+                if not (nxt and nxt[0] == 'R'):
+                    break
+                a = nxt
+            elif fixed is not None and step_no >= len(fixed) and picker is not None:
                 a = picker(real, actions)
                 if a is None:
                     break
@@ -421,9 +464,11 @@ def run_real(n, k, conc, src_fail, policy_or_actions, rng=None, inj=None, cont=N
                 qpoints.append({'at': len(actions), 'state': real.pipeline._state.value,
                                 'conc': real.pipeline._concurrency, 'task_raised': real.task_raised,
                                 'src_raised': real.src_raised})
+        if real.main.done():
+            real.snapshot_end()
         p = real.pipeline
         res = {
-            'qpoints': qpoints, 'in_flight_end': sorted(real.parked),
+            'qpoints': qpoints, 'in_flight_end': sorted(real.parked), 'run_ends': list(real.run_ends),
             'actions': actions, 'steps': steps, 'bad': bad,
             'main': 'b' if bad == 'busy-loop' else real.main_status(),
             'enabled': [] if bad == 'busy-loop' else real.enabled(),
@@ -496,6 +541,21 @@ def oracle(ctx, case, res):
             ctx.fail('task-order', 'Worker.process_one', case,
                      'item %d went through %r, not a prefix of all tasks in order once' % (i, evs))
     complete = [i for i, evs in per.items() if evs == canon]
+    for end in res.get('run_ends', []):
+        if end['status'] != 'r':
+            continue
+        # what a returned run must leave behind on the Pipeline / ItemQueue object (it may be processed again)
+        if end['lock_held']:
+            ctx.fail('dirty-end', 'lock-held', case,
+                     'run %d returned but the ItemQueue condition lock is still held (by a dead task): the next '
+                     'process() on this object blocks in ItemQueue.get()' % end['run'])
+        if end['alive_tasks'] or end['worker_tasks'] or not end['producer_done']:
+            ctx.fail('dirty-end', 'task-alive', case,
+                     'run %d returned with %d task(s) of the run still alive, %d entries in _worker_tasks, producer done=%s'
+                     % (end['run'], end['alive_tasks'], end['worker_tasks'], end['producer_done']))
+        if end['in_flight']:
+            ctx.fail('returned-early', 'shutdown', case,
+                     'run %d returned while item(s) %r were still inside a task' % (end['run'], end['in_flight']))
     hang = None
     if res['bad'] == 'busy-loop':
         hang = 'process() spins in `while running: event.wait()` without ever yielding (event loop frozen)'
@@ -521,6 +581,8 @@ def oracle(ctx, case, res):
             kind, where = 'hang', 'pause-at-start'
         elif unsurfaced:
             kind, where = 'hang', 'failure'
+        elif ('restart',) in res['all_log']:
+            kind, where = 'hang', 'second-run'
         elif res['stop_called']:
             kind, where = 'hang', 'stop'
         elif failure:
@@ -547,11 +609,14 @@ def oracle(ctx, case, res):
         if res['error'] not in ('TaskError', 'SourceError') + tuple(SOURCE_EXCEPTIONS):
             ctx.fail('spurious-error', 'process', case, 'process() raised %s although nothing failed' % res['error'])
     if res['stop_called']:
-        # after stop(): no further get_item call, no item started that was not in flight
+        # after stop(): no further get_item call, no item started that was not in flight - within that run
         al = res['all_log']
         at = al.index(('stop',))
         started_before = {e[1] for e in al[:at] if len(e) == 3 and e[0] == 0 and e[2] == 's'}
-        for e in al[at + 1:]:
+        rest = al[at + 1:]
+        if ('restart',) in rest:
+            rest = rest[:rest.index(('restart',))]
+        for e in rest:
             if e == ('get',) and case.get('stop_effective', True):
                 ctx.fail('work-after-stop', 'Producer.process', case, 'get_item was called after stop()')
                 break
@@ -715,6 +780,66 @@ def gen_url_source(ctx, rng, count):
         inj = rng.choice([{'max': 0}, {'max': 0}, {'max': 1, 'C': 0.05}, {'max': 0, 'X': 0.05}])
         case = {'n': n, 'k': k, 'conc': conc, 'src_fail': src_fail, 'url_source': spec}
         res = run_real(n, k, conc, src_fail, rng.choice(POLICIES), rng, inj, url_source=spec)
+        out.append((case, res))
+    return out
+
+
+RERUN_VARIANTS = ['natural', 'stop-blocked-producer', 'stop-random', 'pause-then-stop', 'stop-blocked-producer',
+                  'natural-paused-restart']
+
+
+def gen_second_run(ctx, rng, count):
+    """Histories with a second (third) process() on the SAME Pipeline / ItemQueue object: run 1 ends by natural end,
+    by a stop with the producer blocked in put_item, by a stop at a random point, or by pause-then-stop; then
+    `concurrency = k` (0..3) and process() again (a paused start is un-paused later); same oracle as a first run."""
+    out = []
+    for ix in range(count):
+        variant = RERUN_VARIANTS[ix % len(RERUN_VARIANTS)]
+        n = rng.choice([2, 3, 4, 5, 6])
+        k = rng.choice([1, 1, 2])
+        conc = rng.choice([1, 1, 2, 3])
+        st = {'phase': 0, 'stopped': False, 'paused': False, 'runs': 1, 'max_runs': rng.choice([2, 2, 3]),
+              'stop_at': rng.randrange(2, 25), 'resumes': 0}
+        k2 = 0 if variant == 'natural-paused-restart' else None
+
+        def picker(real, actions, st=st, variant=variant, k2=k2):
+            if real.main.done():
+                if real.main_status() != 'r' or st['runs'] >= st['max_runs']:
+                    return None
+                st['runs'] += 1
+                st['stopped'] = True        # later runs just run (possibly paused at start)
+                c = k2 if (k2 is not None and st['runs'] == 2) else rng.choice([0, 1, 1, 2, 3])
+                return 'R%d' % c
+            en = real.enabled()
+            p = real.pipeline
+            if not en:
+                if p._state.value == 'running' and p._concurrency == 0 and st['resumes'] < 4:
+                    st['resumes'] += 1
+                    if variant == 'pause-then-stop' and not st['stopped']:
+                        st['stopped'] = True
+                        return 'S'
+                    return rng.choice(['C1', 'C2', 'C3'])
+                return None
+            if not st['stopped'] and len(actions) > 0:
+                q = p._item_queue
+                blocked = any(not w.done() for w in q._worker_ready_condition._waiters) and q._queue.qsize() > 0 \
+                    and any(a[0] == 'T' for a in en)
+                if variant == 'stop-blocked-producer' and blocked:
+                    st['stopped'] = True
+                    return 'S'
+                if variant == 'stop-random' and len(actions) >= st['stop_at']:
+                    st['stopped'] = True
+                    return 'S'
+                if variant == 'pause-then-stop' and not st['paused'] and len(actions) >= st['stop_at']:
+                    st['paused'] = True
+                    return 'C0'
+            others = [a for a in en if a[0] != 'T']
+            if variant == 'stop-blocked-producer' and not st['stopped'] and others and rng.random() < 0.8:
+                return rng.choice(others)
+            return rng.choice(en)
+        case = {'n': n, 'k': k, 'conc': conc, 'src_fail': False}
+        res = run_real(n, k, conc, False, [], picker=picker)
+        res['variant'] = variant
         out.append((case, res))
     return out
 
@@ -1116,6 +1241,12 @@ def replay(ctx, case, kind=None, where=None):
                    rng=random.Random(case.get('then_seed', 0)), cont=case.get('then'),
                    cont_inj={'unpause': False} if case.get('no_resume') else None,
                    url_source=case.get('url_source'))
+    if case.get('then_restart') is not None and res['main'] == 'r' and not any(a[0] == 'R' for a in res['actions']):
+        # run 1 is complete: process() again on the same object, then run on
+        res = run_real(case['n'], case['k'], case['conc'], case['src_fail'],
+                       list(res['actions']) + ['R%d' % case['then_restart']],
+                       rng=random.Random(case.get('then_seed', 0) + 1), cont=case.get('then'),
+                       url_source=case.get('url_source'))
     check_cases(ctx, [(base, res)], tags=['replay'])
 
 
@@ -1146,6 +1277,15 @@ def run(ctx):
     ctx.tag('pause:task-raised-while-paused', len([1 for c, r in pf if failed_while_paused(r['actions'])]))
     ctx.tag('pause:ended-paused-without-resume',
             len([1 for c, r in pf if r['main'] == 'p' and not r['enabled']]))
+    # a second / third process() on the same Pipeline object
+    sr = gen_second_run(ctx, ctx.subrng('second-run'), ctx.scale(600, 6000))
+    check_cases(ctx, sr, tags=['second-run'])
+    for v in sorted(set(RERUN_VARIANTS)):
+        ctx.tag('second-run:' + v, len([1 for c, r in sr if r.get('variant') == v]))
+    ctx.tag('second-run:runs>=2', len([1 for c, r in sr if any(a[0] == 'R' for a in r['actions'])]))
+    ctx.tag('second-run:restart-paused', len([1 for c, r in sr if 'R0' in r['actions']]))
+    ctx.tag('second-run:after-cancelled-producer',
+            len([1 for c, r in sr if any(a[0] == 'R' for a in r['actions']) and 'S' in r['actions']]))
     # the REAL URLItemSource as the pipeline's source (check_out failures must surface)
     us = gen_url_source(ctx, ctx.subrng('url-source'), ctx.scale(500, 5000))
     check_cases(ctx, us, tags=['url-source'])
@@ -1191,5 +1331,6 @@ def search(ctx):
     check_cases(ctx, gen_pause_failure(ctx, rng, ctx.scale(100, 300)), tags=['pause-scenario'])
     check_cases(ctx, gen_stop_busy(ctx, rng, ctx.scale(100, 300)), tags=['stop-busy-scenario'])
     check_cases(ctx, gen_url_source(ctx, rng, ctx.scale(100, 300)), tags=['url-source'])
+    check_cases(ctx, gen_second_run(ctx, rng, ctx.scale(100, 300)), tags=['second-run'])
     app_stream(ctx, rng, ctx.scale(2, 5))
     free_run(ctx, rng, ctx.scale(100, 300))
